@@ -63,7 +63,21 @@ def _affine(e):
         return False
 
 
-def history_guard(chk, F, cls, M, f, n, msg):
+def history_symbols(F, cls, M, cond):
+    """size symbols of non-input member buffers in an undecided condition (their values are history)"""
+    if cond is None:
+        return []
+    members = {x["name"] for x in F.record(cls)["fields"]}
+    inputs = {M.m_durations, M.m_points, M.m_start, M.m_bc}
+    out = []
+    for x_ in getattr(cond, "free_symbols", ()):
+        nm = str(x_)
+        if nm.endswith((".rows", ".size", ".cols")) and nm.rsplit(".", 1)[0] in members and nm.rsplit(".", 1)[0] not in inputs:
+            out.append(nm)
+    return sorted(out)
+
+
+def history_guard(chk, F, cls, M, f, n, msg, cond=None):
     """An undecidable branch whose condition reads the *previous* size of a member buffer makes the control flow
     depend on the object's history: that is a violation of the property, not an analysis problem."""
     import re
@@ -72,6 +86,12 @@ def history_guard(chk, F, cls, M, f, n, msg):
     members = {x["name"] for x in F.record(cls)["fields"]}
     inputs = {M.m_durations, M.m_points, M.m_start, M.m_bc}
     hit = [m for m in re.findall(r"(\w+)\.(?:rows|size|cols)\(\)", msg) if m in members and m not in inputs]
+    if cond is not None and not hit:
+        # the same test through a local alias of the member: the interpreter's view of the condition names the member
+        for x_ in getattr(cond, "free_symbols", ()):
+            nm = str(x_)
+            if nm.endswith((".rows", ".size", ".cols")) and nm.rsplit(".", 1)[0] in members and nm.rsplit(".", 1)[0] not in inputs:
+                hit.append(nm.rsplit(".", 1)[0])
     if not hit:
         return False
     chk.ob("C10-R1", "%s %s with N=%d: control flow independent of buffer sizes left by earlier calls" % (cls, f["name"], n), False, loc(f),
@@ -107,12 +127,43 @@ def run(chk):
             for n in ns:
                 for up in ups:
                     make_env = lambda I, up=up: {p["id"]: I.make_value(p["name"], p["ty"]) for p in up["params"]}
+                    hist_sizes = {}
                     try:
                         runs = trace_operation(F, cls, up, n, M.m_count, make_env, on_call=skip_handover)
                     except sym.Unsupported as ex:
-                        if history_guard(chk, F, cls, M, up, n, str(ex)):
-                            continue
-                        raise
+                        # a guard on the size a member buffer was left with by earlier calls (grow-only scratch): legitimate
+                        # as long as nothing read afterwards lies outside what this update defines.  Both outcomes are
+                        # replayed: the buffer smaller than needed (it is resized) and larger (it is kept).
+                        hs = history_symbols(F, cls, M, getattr(ex, "cond", None))
+                        if not hs:
+                            if history_guard(chk, F, cls, M, up, n, str(ex), getattr(ex, "cond", None)):
+                                continue
+                            raise
+                        worst = None
+                        for label, val in (("smaller", 0), ("larger", None)):
+                            hsz = {h: (val if val is not None else 10 * (n + 2)) for h in hs}
+                            try:
+                                runs_h = trace_operation(F, cls, up, n, M.m_count, make_env, on_call=skip_handover, hist=hsz)
+                            except sym.Unsupported as ex2:
+                                raise Broken("%s update with a %s scratch buffer: %s" % (cls, label, ex2))
+                            Rh = Replay(dict(sizes_for(M, n), **hsz), allowed_entry=(), op_name="update/%d" % len(up["params"]))
+                            for p in up["params"]:
+                                Rh.state.set_all(p["name"])
+                                for fld in F.records.get(p["ty"].get("n"), {}).get("fields", []):
+                                    Rh.state.set_all(p["name"] + "." + fld["name"])
+                            for h in hs:
+                                st_ = Rh.state.get(h.rsplit(".", 1)[0])
+                                st_["size"] = hsz[h]
+                            Rh.run({k: I.trace for k, I in runs_h.items()})
+                            if Rh.violations and worst is None:
+                                worst = (label, Rh.violations[0])
+                            if up is M.update4 and label == "smaller":
+                                base_state = Rh.state          # the queries below run on what this update defined
+                        chk.saw(up)
+                        chk.ob("C10-R1", "%s update/%d with N=%d: every region read is defined earlier in this update, whatever size the scratch buffers %s were left with" % (
+                            cls, len(up["params"]), n, sorted(h.rsplit(".", 1)[0] for h in hs)), worst is None, loc(up),
+                            ("with the buffer %s than needed: %s" % worst) if worst else "replayed with the buffer smaller and larger than needed", construct="%s/update%d/N%d/history-sizes" % (cls, len(up["params"]), n))
+                        continue
                     bad_aff = check_affine_tree(runs["middle"].trace)
                     if bad_aff:
                         raise Broken("non-affine index in %s: %s" % (up["full"], bad_aff[:2]))
@@ -140,7 +191,7 @@ def run(chk):
                     try:
                         runs = trace_operation(F, cls, q, n, M.m_count, make_env)
                     except sym.Unsupported as ex:
-                        if history_guard(chk, F, cls, M, q, n, str(ex)):
+                        if history_guard(chk, F, cls, M, q, n, str(ex), getattr(ex, "cond", None)):
                             continue
                         raise
                     st = State()
